@@ -1,7 +1,7 @@
 #!/usr/bin/env python3
 """Runs every quick check against each behaviour-preserving refactoring kept under /verif/benign/<name>/patch.diff,
 applied in a scratch worktree of /repo (never in /repo itself). Every check must stay silent.
-usage: refactors.py [name ...]   exit 0 iff no check raises an alarm on any refactoring."""
+usage: refactors.py [--props=C04,C16] [name ...]   exit 0 iff no check raises an alarm on any refactoring."""
 import json, os, subprocess, sys, glob, shutil, tempfile, concurrent.futures as cf
 V = os.path.dirname(os.path.dirname(os.path.abspath(__file__)))
 names = [a for a in sys.argv[1:] if not a.startswith('--')]
@@ -10,6 +10,9 @@ if names:
     pats = [s for s in pats if os.path.basename(os.path.dirname(s)) in names]
 subprocess.check_call([os.path.join(V, 'run.sh'), '--build'])
 props = [c['property_id'] for c in json.load(open(os.path.join(V, 'MANIFEST.json')))['checks']]
+for a in sys.argv[1:]:
+    if a.startswith('--props='):  # restrict the checks run (after a change confined to some rules)
+        props = [p for p in props if p in a[8:].split(',')]
 bad = 0
 for s in pats:
     name = os.path.basename(os.path.dirname(s))
